@@ -163,6 +163,14 @@ func (s *Linear) Nice(o TickOptions) {
 	}
 
 	firstN, lastN, spacing := s.spacingAtLevel(level, true)
-	s.Min = firstN * spacing
-	s.Max = lastN * spacing
+	// Move each bound outwards only, and only to a finite value:
+	// when the only levels with few enough ticks overflow float64
+	// the products are NaN or infinite, and a bound that is already
+	// within rounding of a tick stays where it is.
+	if min := firstN * spacing; min <= s.Min && !math.IsInf(min, 0) {
+		s.Min = min
+	}
+	if max := lastN * spacing; max >= s.Max && !math.IsInf(max, 0) {
+		s.Max = max
+	}
 }
